@@ -198,22 +198,32 @@ class Run:
 
 
 def _body(case, ctx):
-    K, k = case["K"], case["k"]
+    K = case["K"]
+    ks = list(range(K + 1)) if ctx.tier == "thorough" else [case["k"]]
     tmp = tempfile.mkdtemp(prefix="sophtverif_c18_")
     try:
         A = Run(case, ctx)
         A.set_initial_fields()
         dt = A.choose_dt()
-        for i in range(K):
-            if i == k:
-                A.save(tmp, ctx)
-            A.step(ctx)
-        if k == K:
-            A.save(tmp, ctx)
+        for i in range(K + 1):
+            if i in ks:
+                os.makedirs(os.path.join(tmp, str(i)), exist_ok=True)
+                A.save(os.path.join(tmp, str(i)), ctx)
+            if i < K:
+                A.step(ctx)
+        for k in ks:
+            _resume_and_compare(case, ctx, A, dt, k, os.path.join(tmp, str(k)))
+    finally:
+        shutil.rmtree(tmp, ignore_errors=True)
+
+
+def _resume_and_compare(case, ctx, A, dt, k, ckpt_dir):
+    K = case["K"]
+    if True:
         B = Run(case, ctx)
         B.dt = dt
         B.poison()
-        B.load(tmp, ctx)
+        B.load(ckpt_dir, ctx)
         for i in range(k, K):
             B.step(ctx)
         real_t = A.real_t
@@ -238,8 +248,6 @@ def _body(case, ctx):
         feature = bool(case["cfg"]["filter"]) or case["cfg"]["with_free_stream"]
         ctx.note(nontrivial=0 < k < K and moving and feature,
                  labels=simcfg.config_labels(case["cfg"]) + [f"k{k}_of_{K}", "interior_checkpoint" if 0 < k < K else "edge_checkpoint"])
-    finally:
-        shutil.rmtree(tmp, ignore_errors=True)
 
 
 # ------------------------------------------------------------------------------------------------
